@@ -502,7 +502,7 @@ META = {
                  "TXT answer yields a policy only if it holds exactly one v=STSv1 record with an id, and a response only "
                  "if it is 200 text/plain with version STSv1, a known mode, a numeric max_age and (unless mode none) an mx.",
     "text": "TLC explores StsCache.tla exhaustively (Get with 7 kinds of fault, publications, clock steps, restarts, file "
-            "damage, refresh runs with a fault plan; fs and ram store; production and test life-cycle) and checks 20 "
+            "damage, refresh runs with a fault plan; fs and ram store; production and test life-cycle) and checks 21 "
             "predicates in every state; the as-is model must violate them for each of the 4 named deviations and explain "
             "every violation. Behaviours printed by TLC are executed on the real module built through maddy's registry "
             "and PolicyGroup (real go-mtasts cache, stores, parsers and net/http client, scripted policy host and resolver, "
